@@ -72,6 +72,73 @@ Proof. intros A B C h f. induction l as [|a t IH]; [reflexivity|]. cbn [map flat
 Lemma xa_flat_flat : forall (A B C : Type) (g : B -> list C) (f : A -> list B) l, flat_map g (flat_map f l) = flat_map (fun x => flat_map g (f x)) l.
 Proof. intros A B C g f. induction l as [|a t IH]; [reflexivity|]. cbn [flat_map]. rewrite flat_map_app, IH. reflexivity. Qed.
 
+(* the compressed-entry checks of XS8, with the member and its value made explicit *)
+Lemma xa_comp_read : forall d, wf_doc d -> xs_eligible d <> [] ->
+  forall n stm idx, In (n, XsIn stm idx) (xs_l_table (xs_L d)) ->
+  let out := xs_out d in
+  exists q o dct doff len nn first data pairs ooff v rest k m,
+    In (XsStm k) (xs_items d) /\ stm = xs_srenf d k /\ nth_error (xs_members (xs_P d) k) (N.to_nat idx) = Some m /\ n = xs_renf d m
+    /\ v = to_pobj (d_objects d) (xs_renf d) (i_val (xs_lookup (d_objects d) m))
+    /\ In (stm, XsOff q) (xs_l_table (xs_L d))
+    /\ (forall len_of, parse_indirect (length out) (N.of_nat (length out)) out q len_of = inl (Some o))
+    /\ so_num o = stm /\ so_val o = SpDict dct /\ so_stream o = Some (doff, len)
+    /\ dict_get dct n_Type = Some (SpName n_ObjStm) /\ get_int dct n_N = Some nn /\ get_int dct n_First = Some first
+    /\ decode_struct_stream dct (firstn (N.to_nat len) (at_off out doff)) = Some data
+    /\ objstm_pairs (N.to_nat nn) data [] = Some pairs
+    /\ nth_error pairs (N.to_nat idx) = Some (n, ooff)
+    /\ parse_obj (length out + length data)
+         (firstn (match nth_error pairs (S (N.to_nat idx)) with
+                  | Some (_, noff) => if ooff <? noff then N.to_nat (noff - ooff) else length data
+                  | None => length data
+                  end) (skipn (N.to_nat (first + ooff)) data)) = Some (v, rest).
+Proof.
+  intros d W Hel n stm idx Hin out.
+  destruct (xe_tab_in d n stm idx Hin) as [k [q [m [Hl [Hstm [Hm Hn]]]]]].
+  destruct (xe_item_read d W Hel (XsStm k) q Hl) as [o [Hp [Hnum [_ [_ [_ [Hval [doff [rest0 [Hstr Hat]]]]]]]]]].
+  set (objs := d_objects d) in *. set (p := xs_P d) in *. set (ren := xs_renf d) in *.
+  set (data := xs_ostm_data WUS WUN objs p ren k) in *.
+  set (ms := xs_members p k) in *.
+  pose proof (xe_lay_item d (XsStm k) q Hl) as Hit.
+  assert (Hlo : (0 < length out)%nat).
+  { unfold out. rewrite (xr_out_eq d Hel), !app_length. unfold xs_s_startxref. cbn [length]. lia. }
+  (* the member's value *)
+  set (vv := i_val (xs_lookup objs m)).
+  assert (Hmem : In m ms) by (apply nth_error_In in Hm; exact Hm).
+  destruct (xs_no_excluded_member_lemma d k m Hmem) as [Hns _].
+  destruct W as [Hc Hobjs Htr Hst Hsb Hver Hids Hroot Hsize Hkeys Hnoprev Hnoxs].
+  assert (Hwfv : wf_wobj vv).
+  { unfold vv, xs_lookup. destruct (find_obj objs m) as [i0|] eqn:Hf; [| exact I].
+    destruct (find_obj_in _ _ _ Hf) as [k0 Hk0]. unfold wf_doc_objs in Hobjs. rewrite Forall_forall in Hobjs. apply (Hobjs (k0, i0) Hk0). }
+  assert (Hrefs : forall x, In x (refs_of objs vv) -> 0 < ren x).
+  { intros x Hx.
+    assert (Hch : In x (children (graph_of d) m)).
+    { apply xe_children_printed. unfold xo_printed. rewrite Hns. exact Hx. }
+    pose proof (xs_refs_numbered_lemma d (XsStm k) x) as Hr. rewrite xs_L_eq in Hr. cbn [xs_l_items xs_l_plan xs_l_ren xs_l_xref_id] in Hr.
+    apply Hr; [exact Hit|]. cbn [xs_item_children]. apply in_flat_map. exists m. split; [exact Hmem | exact Hch]. }
+  pose proof (xs_objstm_member_parses_lemma d k (N.to_nat idx) m (length out + length data)) as Hmp. cbv zeta in Hmp.
+  rewrite xs_L_eq in Hmp. cbn [xs_l_plan xs_l_ren] in Hmp. fold objs p ren data ms vv in Hmp.
+  destruct (Hmp Hm Hwfv Hrefs ltac:(lia)) as [pairs [ooff [Hpairs [Hplen [Hnth Hparse]]]]].
+  (* consecutive numbers *)
+  assert (Hcons : ren (hd 0 ms) + N.of_nat (N.to_nat idx) = n).
+  { pose proof (xs_members_consecutive_lemma d k) as Hcs. rewrite xs_L_eq in Hcs. cbn [xs_l_items xs_l_plan xs_l_ren xs_l_sren] in Hcs.
+    destruct (Hcs (N.to_nat idx) m Hit Hm) as [E1 _].
+    assert (H0 : nth_error ms 0 = Some (hd 0 ms)) by (fold ms in Hm; destruct ms; [destruct (N.to_nat idx); discriminate | reflexivity]).
+    destruct (Hcs O (hd 0 ms) Hit H0) as [E0 _]. fold ren in E0, E1. rewrite Hn, E1, E0. lia. }
+  rewrite Hcons in Hnth.
+  exists q, o, (xe_objstm_dict d k), doff, (N.of_nat (length data)), (N.of_nat (length ms)), (xs_ostm_first WUS WUN objs p ren k),
+         data, pairs, ooff, (to_pobj objs ren vv), [10], k, m.
+  assert (Htabq : In (stm, XsOff q) (xs_l_table (xs_L d))).
+  { rewrite xs_L_eq. cbn [xs_l_table]. rewrite (xe_tab_eq d). apply in_flat_map. exists (XsStm k, q). split; [exact Hl|].
+    cbn [fst snd xs_item_entries]. apply in_or_app. right. left. rewrite Hstm. reflexivity. }
+  split; [exact Hit|]. split; [exact Hstm|]. split; [exact Hm|]. split; [exact Hn|]. split; [reflexivity|].
+  split; [exact Htabq|]. split; [exact Hp|]. split; [rewrite Hnum, Hstm; reflexivity|]. split; [exact Hval|]. split; [exact Hstr|].
+  split; [reflexivity|]. split; [apply xf_get_int; reflexivity|]. split; [apply xf_get_int; reflexivity|].
+  split.
+  { unfold decode_struct_stream. change (dict_get (xe_objstm_dict d k) n_Filter) with (@None pobj).
+    fold out in Hat. rewrite Hat, Nat2N.id, xs_firstn_exact. reflexivity. }
+  split; [rewrite Nat2N.id; exact Hpairs|]. split; [exact Hnth|]. exact Hparse.
+Qed.
+
 Definition k_Encrypt : list N := [69; 110; 99; 114; 121; 112; 116].
 
 Section Cap.
@@ -138,5 +205,74 @@ Section Cap.
   Proof.
     intros k q j m Hip Hj. apply xa_g_in. apply (xa_tab_lay (XsStm k, q) Hip). cbn [fst snd xs_item_entries].
     apply in_or_app. left. pose proof (xa_index_entries_mem ren (sren k) (xs_members p k) 0 j m Hj) as H. rewrite N.add_0_l in H. exact H.
+  Qed.
+
+  (* ---------- step 1: the in-use entries ---------- *)
+  Variable len_of : N -> option N.
+
+  Definition xa_G1 (ke : N * xentry) : option sobj :=
+    match ke with
+    | (k, XInUse off gen) => match parse_indirect (length out) total out off len_of with inl (Some o) => Some o | _ => None end
+    | _ => None
+    end.
+  Definition xa_opt (o : option sobj) : list sobj := match o with Some x => [x] | None => [] end.
+  Definition xa_C : list sobj := flat_map (fun ke => xa_opt (xa_G1 ke)) XR.
+
+  Lemma xa_G1_inuse : forall n off g, In (n, XInUse off g) XR ->
+    exists o, parse_indirect (length out) total out off len_of = inl (Some o) /\ xa_G1 (n, XInUse off g) = Some o
+              /\ so_num o = n /\ so_gen o = g /\ so_where o = XInUse off 0.
+  Proof.
+    intros n off g H. destruct (xs_inuse_entries_read_lemma d W Hel Htt n off g H) as [o [H1 [H2 [H3 H4]]]].
+    exists o. fold out in H1. fold total in H1. unfold xa_G1. rewrite (H1 len_of). repeat split; assumption.
+  Qed.
+
+  Lemma xa_C_in : forall o, In o xa_C -> exists off g, In (so_num o, XInUse off g) XR /\ xa_G1 (so_num o, XInUse off g) = Some o /\ so_gen o = g.
+  Proof.
+    intros o H. unfold xa_C in H. apply in_flat_map in H. destruct H as [[k e] [Hke Ho]].
+    destruct e as [a b | off g | a b]; cbn [xa_G1 xa_opt] in Ho; try contradiction.
+    destruct (xa_G1_inuse k off g Hke) as [o' [Hp [HG [Hn [Hg _]]]]]. rewrite Hp in Ho. cbn [xa_opt] in Ho. destruct Ho as [<- | []].
+    exists off, g. rewrite Hn. repeat split; assumption.
+  Qed.
+
+  Lemma xa_XR_nodup : NoDup (map fst XR).
+  Proof. apply (xs_merged_table_lemma (xs_l_entries L)). Qed.
+
+  Lemma xa_nodup_gen : forall (l : list (N * xentry)), NoDup (map fst l) ->
+    (forall ke o, In ke l -> In o (xa_opt (xa_G1 ke)) -> so_num o = fst ke) ->
+    NoDup (map so_num (flat_map (fun ke => xa_opt (xa_G1 ke)) l)).
+  Proof.
+    induction l as [|ke t IH]; intros Hnd Hnum; [constructor|]. cbn [map] in Hnd. inversion Hnd as [|? ? H1 H2]; subst.
+    cbn [flat_map]. rewrite map_app.
+    assert (IHt : NoDup (map so_num (flat_map (fun ke0 => xa_opt (xa_G1 ke0)) t))).
+    { apply IH; [exact H2|]. intros ke0 o Hk Ho. apply Hnum; [right; exact Hk | exact Ho]. }
+    destruct (xa_G1 ke) as [o|] eqn:E; cbn [xa_opt map app]; [| exact IHt].
+    constructor; [| exact IHt]. intros Hin. apply in_map_iff in Hin. destruct Hin as [o' [Hn' Ho']].
+    apply in_flat_map in Ho'. destruct Ho' as [ke' [Hk' Ho'']].
+    pose proof (Hnum ke' o' (or_intror Hk') Ho'') as E1.
+    pose proof (Hnum ke o (or_introl eq_refl)) as E2. rewrite E in E2. specialize (E2 (or_introl eq_refl)).
+    apply H1. rewrite <- E2, <- Hn', E1. apply in_map. exact Hk'.
+  Qed.
+
+  Lemma xa_C_nodup : NoDup (map so_num xa_C).
+  Proof.
+    apply xa_nodup_gen; [exact xa_XR_nodup|]. intros [k e] o Hke Ho.
+    destruct e as [a b | off g | a b]; cbn [xa_G1 xa_opt] in Ho; try contradiction.
+    destruct (xa_G1_inuse k off g Hke) as [o' [Hp [_ [Hn _]]]]. rewrite Hp in Ho. cbn [xa_opt] in Ho. destruct Ho as [<- | []]. exact Hn.
+  Qed.
+
+  (* (c) the object found under a stream's number is the object stream parsed for that number *)
+  Lemma xa_find_stream : forall stm q o, In (stm, XsOff q) tab ->
+    parse_indirect (length out) total out q len_of = inl (Some o) -> so_num o = stm ->
+    find (fun o' => so_num o' =? stm) (rev xa_C) = Some o.
+  Proof.
+    intros stm q o Hin Hp Hn.
+    assert (Hx : In (stm, XInUse q 0) XR).
+    { destruct (xs_numbering_bijection_lemma d xa_closed) as [_ [_ Hcov]]. fold L tab in Hcov.
+      assert (Hk : 1 <= stm < xs_l_xref_id L) by (apply Hcov; apply in_map_iff; exists (stm, XsOff q); split; [reflexivity | exact Hin]).
+      unfold XR, L. rewrite xa_XR_form. right. apply in_or_app. left. rewrite <- (xa_g_off stm q Hin).
+      apply in_map. apply xn_range_in. fold L. lia. }
+    assert (Hc : In o xa_C).
+    { unfold xa_C. apply in_flat_map. exists (stm, XInUse q 0). split; [exact Hx|]. cbn [xa_G1]. rewrite Hp. left. reflexivity. }
+    rewrite <- Hn. apply xa_find_unique; [rewrite map_rev; apply NoDup_rev; exact xa_C_nodup | apply in_rev; rewrite rev_involutive; exact Hc].
   Qed.
 End Cap.
